@@ -11,31 +11,40 @@ import (
 // vanished since), the slash callback returns nil without panic and queues a rebalance.
 func H_C08_total() {
 	id := "C08.total"
-	dstState := nd.Choice("dst", 3) // 0: destination position intact, 1: absent, 2: present but arbitrary (may be smaller than the slash)
+	dstState := nd.Choice("dst", 2) // destination position of the pending redelegation: 0 present (any size), 1 absent
 	pk := nd.Choice("pending", 3)
 	ps := []Pos{{0, 0, 0}, {1, 1, 0}}
-	if dstState != 1 {
+	if dstState == 0 {
 		ps = append(ps, Pos{0, 1, 0})
 	}
-	st := Build(ps, Opts{Rewards: true})
+	st := Build(ps, Opts{})
 	e := st.E
 	pendingUnbondings(st, pk)
 	c1 := nd.TimeRange("rc1", TLo, THi)
 	r1 := nd.IntRange("r1", "1", Pow30)
 	InstallRedelegation(e, 0, 0, 1, 0, r1, c1)
-	switch dstState {
-	case 1:
-		nd.Tag("redelegation-dst-gone")
-	case 2:
-		nd.Tag("redelegation-dst-arbitrary")
-	}
-	tagPoolShort(e, 0, 1)
 	f := nd.DecRange("fraction", "0.000000000000000001", "1")
+	pendingRedel := !c1.Before(st.T0)
+	if pendingRedel {
+		if dstState == 1 {
+			nd.Tag("redelegation-dst-gone")
+		} else {
+			// has the destination position shrunk below what the slash wants to take?
+			asset, _ := e.K.GetAssetByDenom(e.Ctx, Denoms[0])
+			del, _ := e.K.GetDelegation(e.Ctx, Dels[0], Vals[1], Denoms[0])
+			have := types.GetDelegationTokens(del, AV(e, Vals[1]), asset).Amount
+			if have.LT(f.MulInt(r1).TruncateInt()) {
+				nd.Tag("redelegation-dst-shrunk")
+			}
+		}
+		tagLiveness(e, 1)
+	}
 	var err error
 	nd.Reach(id)
 	if !NoPanic(id, func() { err = e.K.StakingHooks().BeforeValidatorSlashed(e.Ctx, Vals[0], f) }) {
 		return
 	}
+	ErrNote(err)
 	nd.Assert(id, err == nil)
 	ok, _ := e.Store.Has(types.AssetRebalanceQueueKey)
 	nd.Assert(id+".rebalance", ok)
